@@ -103,10 +103,14 @@ CLAIMED = {
    "DESIGN.md §4 C01",
    "Trusted: the validator as the oracle of accepted opcodes, wasm.Opcode constant names follow the spec mnemonics, the table of six default-relying kinds and three source-tagged kinds (one line of reason each).",
    "static: exhaustiveness over typed constants and tables, representation lint on typed syntax, must-pass-through on SSA CFG with summaries, per-label abstract evaluation of dispatcher arms"),
+ "C05": ("other",
+   "The numerical result of no instruction is decided (that quantifies over operand values; neither the interpreter's Go arithmetic nor the emitted machine code is evaluated). Decided statically are four structural necessary conditions of clauses the statement names: shift/rotate counts are reduced modulo the operand or lane width in the interpreter (scalar and vector arms) and masked with lane-bits-1 in the amd64 vector-shift lowerings; integer division and trapping float-to-int truncation raise the same set of trap kinds in the interpreter, amd64 and arm64 (pseudo-instructions followed to their post-regalloc expanders); the interpreter's float min/max/ceil/floor/trunc/nearest arms compute through the moremath.WasmCompat helper of their width and never through math.Min/Max/Ceil/Floor/Round*.",
+   "DESIGN.md §4 C05, §5",
+   "Trusted: operation-kind and shape/lane constant names, Go's shift semantics (count not wrapped), math/bits.RotateLeft reduces the count.",
+   "static: width agreement on typed syntax, sibling agreement of trap-kind sets across three implementations, who-may-call"),
 }
 
 NOT_APPLICABLE = {
- "C05": "numerical results of ~440 instructions over all operand values: no sound static argument in reach; the only structural parts (representation/signedness lints) are claimed under C01/C08, not as a decision of C05",
 }
 
 PENDING = "static rules for this property are designed (DESIGN.md §4) but not yet built in this revision; not claimed until the checker exists and is validated both ways"
